@@ -1,21 +1,23 @@
 #!/usr/bin/env python3
 """Dev-time: copy a confirmed seed from /tmp/seed_<id> into /verif/seeded/<id>, stamp meta.json, register a SEED mutant.
-Usage: tools/seed_import.py <Cxx> <expect-substring> <caught_by text>"""
+Usage: tools/seed_import.py <Cxx> <expect-substring> <caught_by text> [round]"""
 import json, os, shutil, sys
 pid, expect, caught = sys.argv[1], sys.argv[2], sys.argv[3]
-src, dst = '/tmp/seed_' + pid, '/verif/seeded/' + pid
+rnd = sys.argv[4] if len(sys.argv) > 4 else ''          # '' for the first round, '2' for the second
+name = pid + ('-' + rnd if rnd else '')
+src, dst = '/tmp/seed' + rnd + '_' + pid, '/verif/seeded/' + name
 if os.path.exists(dst):
     shutil.rmtree(dst)
 shutil.copytree(src, dst, ignore=shutil.ignore_patterns('go.sum', '*.log', 'bin', 'out', 'gen', '.git'))
 mp = os.path.join(dst, 'meta.json')
 meta = json.load(open(mp)) if os.path.exists(mp) else {"property": pid}
 meta['confirmed_by_me'] = {
-    "commands": ["tools/seed_eval.sh %s  (scratch copy of /repo: run_demo.sh exits 0 on the clean tree, patch applies, go build ./... and go test ./... pass, run_demo.sh exits non-zero with the patch)" % pid],
+    "commands": ["tools/seed_eval.sh %s [seed dir]  (scratch copy of /repo: run_demo.sh exits 0 on the clean tree, patch applies, go build ./... and go test ./... pass, run_demo.sh exits non-zero with the patch)" % pid],
     "caught_by": caught,
 }
 json.dump(meta, open(mp, 'w'), indent=1)
 mj = '/verif/tools/mutants.json'
-muts = [m for m in json.load(open(mj)) if m['id'] != 'SEED-' + pid]
-muts.append({"id": "SEED-" + pid, "property": pid, "expect": expect, "patch": "seeded/%s/patch.diff" % pid})
+muts = [m for m in json.load(open(mj)) if m['id'] != 'SEED-' + name]
+muts.append({"id": "SEED-" + name, "property": pid, "expect": expect, "patch": "seeded/%s/patch.diff" % name})
 json.dump(muts, open(mj, 'w'), indent=1)
-print('imported', pid)
+print('imported', name)
